@@ -122,6 +122,17 @@ def well_defined_images(d, tier, rng, sexe, want_x=True):
             fn = os.path.join(bd, "x%d.bin" % k)
             open(fn, "wb").write(struct.pack('<I', r['hdr']) + bytes(r['img']) + bytes(r['dbg']))
             cands.append((c['id'], fn, bytes(c['input'])))
+    # images larger than 200000 bytes and larger than 2^19 bytes (words near the marks and the very last word are read)
+    A = asmlib
+    exitv = [A.ref('LDBM', 'sp'), A.imm('STAI', 2), A.imm('LDAC', 0), A.opr('SVC')]
+    for name, gaps in (("asm:image200k", (52000, 10, 10)), ("asm:image2p19", (131000, 150, 2000))):
+        prog = [A.ref('BR', 'go'), A.lab('sp'), A.data(199000), A.lab('go'), A.ref('LDAM', 'w1'), A.ref('LDBM', 'w2'), A.opr('ADD'), A.ref('LDBM', 'last'), A.opr('ADD'),
+                A.ref('LDBM', 'sp'), A.imm('STAI', 2), A.imm('LDAC', 0), A.imm('STAI', 3), A.imm('LDAC', 1), A.opr('SVC'), A.imm('LDAC', 6)] + exitv + \
+               [A.lab('tab')] + [A.data(0)] * gaps[0] + [A.lab('w1'), A.data(20)] + [A.data(0)] * gaps[1] + [A.lab('w2'), A.data(30)] + [A.data(0)] * gaps[2] + [A.lab('last'), A.data(27)]
+        sf = os.path.join(bd, name.replace(':', '_') + ".S"); bf = os.path.join(bd, name.replace(':', '_') + ".bin")
+        open(sf, "w").write(A.src_of(prog))
+        if vlib.sh([os.path.join(corpus.tools(), "hexasm"), sf, "-o", bf], timeout=300).returncode == 0 and os.path.exists(bf):
+            cands.append((name, bf, b""))
     # ask the specification which of them stay inside the precondition
     simcases = [{'id': str(k), 'bin': open(b, 'rb').read().hex(), 'input': inp.hex(), 'maxcycles': 0, 'trace': 0, 'dirty': -1, 'maxsteps': 400000} for k, (i, b, inp) in enumerate(cands)]
     cf = os.path.join(d, "wd.cases"); of = os.path.join(d, "wd.out")
